@@ -131,7 +131,8 @@ def make_scratch():
     os.makedirs(SCRATCH)
     # a copy of /repo's working tree (without build output) and of the simulator crate
     sh(f"rsync -a --exclude target --exclude .git /repo/ {SCRATCH}/repo/")
-    sh(f"rsync -a --exclude target {VERIF}/sim/ {SCRATCH}/sim/")
+    # the simulator as committed (HEAD), so that edits in progress in /verif/sim cannot leak in
+    sh(f"git -C {VERIF} archive HEAD sim | tar -x -C {SCRATCH}")
     cargo = open(f"{SCRATCH}/sim/Cargo.toml").read().replace('path = "/repo"', f'path = "{SCRATCH}/repo"')
     open(f"{SCRATCH}/sim/Cargo.toml", "w").write(cargo)
     cfg = open(f"{SCRATCH}/sim/.cargo/config.toml").read().replace("/verif/.target", f"{SCRATCH}/target")
@@ -257,13 +258,15 @@ def seeded(only):
             elif rc != 0:
                 caught_by[p] = {"class": f"harness rc={rc}", "replay_passes_on_pristine_tree": False}
         owner = meta["property"]
-        print(f"{name}: suite {'passes' if ok else 'FAILS'} ({passed}); breaks {owner}; caught by {sorted(caught_by) or 'NOTHING'}" + ("" if owner in caught_by else f"  <-- NOT caught by its own property's check"))
+        real = sorted(p for p, c in caught_by.items() if not c["class"].startswith("harness"))
+        stopped = sorted(p for p, c in caught_by.items() if c["class"].startswith("harness"))
+        print(f"{name}: suite {'passes' if ok else 'FAILS'} ({passed}); breaks {owner}; caught by {real or 'NOTHING'}" + (f"; exit 2 from {stopped}" if stopped else "") + ("" if owner in real else f"  <-- NOT caught by its own property's check"))
         for p, c in caught_by.items():
             print(f"     {p}: {c['class'][:150]}")
         meta["suite_passes_with_change"] = ok
         meta["caught_by"] = caught_by
         json.dump(meta, open(f"{base}/{name}/meta.json", "w"), indent=1)
-        if owner not in caught_by:
+        if owner not in real:
             bad += 1
         shutil.rmtree(SCRATCH, ignore_errors=True)
     print("seeded:", "OK" if bad == 0 else f"{bad} MISSED by the owning check")
